@@ -373,6 +373,9 @@ class Run:
         }
         with open(os.path.join(VERIF, "evidence", self.prop + ".json"), "w") as f:
             json.dump(ev, f, indent=1, ensure_ascii=False)
+        import glob
+        for old in glob.glob(os.path.join(VERIF, "replays", "%s-%s-%d-*.json" % (self.prop, self.tier, self.seed))):
+            os.remove(old)
         for k in self.known:
             print("KNOWN-FINDING: property=%s %s" % (self.prop, k))
         if self.violations:
